@@ -1,5 +1,5 @@
 """which contract modules exist, and per property: claimed level, assumptions, bounded stand-ins"""
-MODULES = ['contracts.c19_boxes', 'contracts.c01_membership', 'contracts.c04_bbox', 'contracts.c15_motions', 'contracts.c02_masks', 'contracts.c17_validation', 'contracts.c16_values', 'contracts.c20_pixcoord', 'contracts.c06_sky', 'contracts.c07_wcs']
+MODULES = ['contracts.c19_boxes', 'contracts.c01_membership', 'contracts.c04_bbox', 'contracts.c15_motions', 'contracts.c02_masks', 'contracts.c17_validation', 'contracts.c16_values', 'contracts.c20_pixcoord', 'contracts.c06_sky', 'contracts.c07_wcs', 'contracts.c08_algebra']
 
 A_PY = 'A-PY: CPython semantics of the modelled subset (ints exact, dict/list/str methods, left-to-right evaluation)'
 A_REAL = 'A-REAL: floats are treated as real numbers (no rounding, no overflow)'
@@ -48,4 +48,12 @@ PROPERTIES = {
     'C07': dict(level='proof', trusted=[A_PY, A_REAL, A_TRIG, A_NUMPY, A_UNITS, 'A-WCS + ASSUMED local-similarity model of an undistorted WCS (contracts/c07_wcs.py: local_model)'],
                 assumptions=[A_PY, A_REAL, A_TRIG, A_NUMPY, A_UNITS, 'the local-similarity model is the meaning given to "undistorted celestial WCS"; distortion and projection mathematics are out of scope',
                              'angles are compared modulo a full turn (through cos and sin)']),
+    'C08': dict(level='proof', trusted=[A_PY, A_REAL, A_TRIG, A_NUMPY, A_UNITS, 'A-WCS (conversion clause)', 'assumed kernel contracts (mask clause, as C02)'],
+                assumptions=[A_PY, A_REAL, A_TRIG, A_NUMPY, A_UNITS,
+                             'compound membership, masks and boxes are proved for arbitrary operands obeying the base contract of PixelRegion, which makes nesting depth unbounded (structural induction, one level per modular step)',
+                             'commutation with rotation / conversion is proved for circle and ellipse operands (component-wise by the code, so other operand classes only change the component contracts of C15/C06)']),
+    'C13': dict(level='proof', trusted=[A_PY, A_REAL, A_TRIG, A_NUMPY, A_UNITS, 'A-WCS', 'copy.deepcopy contract', 'externals are pure (they write only what their model says: numpy in-place ops, Quantity in-place operators, dict/list mutators)'],
+                assumptions=[A_PY, A_REAL, A_NUMPY, A_UNITS,
+                             'frame obligations: every write (attribute, item, in-place operator, write through an array view) to an object that existed before the call must be listed in the contract\'s `modifies`; writes to non-public instance attributes are judged by their observable effect (follows_assignment contracts) rather than flagged',
+                             'history independence is the conjunction: no operation writes pre-existing or module-level state + results are functions of the arguments (each verified from an arbitrary well-formed state); a literal fresh-interpreter comparison is not performed']),
 }
